@@ -241,7 +241,7 @@ def check(model, rep):
         seen = {}
         for text, truth in sorted(e.facts.items()):
             try:
-                node = ast.parse(text, mode='eval').body
+                node = ast.parse(e.fact_src.get(text, text), mode='eval').body
             except SyntaxError:
                 node = None
             if not isinstance(node, ast.Compare) or len(node.ops) != 1:
